@@ -63,17 +63,19 @@ type spec struct {
 	retry            string
 	failFirst        int // number of leading attempts answering 502
 	explicitCL       bool
-	h2style          bool // undeclared request length without chunked transfer-encoding (HTTP/2, direct calls)
-	verbose          bool // buffer.Verbose(true) with a formatting logger
-	formCT           bool // the request declares Content-Type: application/x-www-form-urlencoded
-	upgradeHdr       bool // the request asks for a protocol switch (Connection: Upgrade, Upgrade: websocket)
-	piecewise        bool // the request body arrives in pieces, the first ending exactly at the limit
-	nilErrHandler    bool // buffer.ErrorHandler(nil) is among the options
-	expect100        bool // the request carries Expect: 100-continue
-	hijackAfter      bool // the handler hijacks the connection after writing its output
-	hijackRefused    int  // 1: the handler first asks for the connection, the writer refuses, it answers normally; 2: asks after writing
-	copyMode         bool // the handler streams its body with io.Copy from a plain reader
-	abort            bool // the handler panics (http.ErrAbortHandler) after writing
+	shortCL          int64 // > 0: the handler of an over-limit response announces Content-Length shortCL-1 (smaller than what it writes, within the limit); 0: not used
+	overDeclared     int64 // > 0: the request declares this length (over the maximum) although fewer bytes (within it) follow
+	h2style          bool  // undeclared request length without chunked transfer-encoding (HTTP/2, direct calls)
+	verbose          bool  // buffer.Verbose(true) with a formatting logger
+	formCT           bool  // the request declares Content-Type: application/x-www-form-urlencoded
+	upgradeHdr       bool  // the request asks for a protocol switch (Connection: Upgrade, Upgrade: websocket)
+	piecewise        bool  // the request body arrives in pieces, the first ending exactly at the limit
+	nilErrHandler    bool  // buffer.ErrorHandler(nil) is among the options
+	expect100        bool  // the request carries Expect: 100-continue
+	hijackAfter      bool  // the handler hijacks the connection after writing its output
+	hijackRefused    int   // 1: the handler first asks for the connection, the writer refuses, it answers normally; 2: asks after writing
+	copyMode         bool  // the handler streams its body with io.Copy from a plain reader
+	abort            bool  // the handler panics (http.ErrAbortHandler) after writing
 }
 
 func pick(t *rapid.T, label string, thr int64) int64 {
@@ -173,6 +175,9 @@ func genSpec(t *rapid.T) *spec {
 		s.retry = "Attempts() < 3"
 	}
 	s.explicitCL = rapid.IntRange(0, 3).Draw(t, "explicitCL") == 0
+	if s.maxReq > 0 && !s.chunked && int64(s.reqBody) <= s.maxReq && rapid.IntRange(0, 5).Draw(t, "declaresMoreThanItSends") == 0 {
+		s.overDeclared = s.maxReq + rapid.Int64Range(1, 1<<20).Draw(t, "declaredOver")
+	}
 	s.copyMode = rapid.IntRange(0, 3).Draw(t, "copyMode") == 0
 	if s.copyMode && rapid.Bool().Draw(t, "bigCopy") { // more than one io.Copy chunk (32 KiB)
 		s.writes = []int{rapid.IntRange(33000, 120000).Draw(t, "copyLen")}
@@ -185,11 +190,20 @@ func genSpec(t *rapid.T) *spec {
 	if !s.hijackAfter && rapid.IntRange(0, 5).Draw(t, "refusedHijack") == 0 {
 		s.hijackRefused = rapid.IntRange(1, 2).Draw(t, "refusedHijackWhen")
 	}
+	{
+		tot := 0
+		for _, n := range s.writes {
+			tot += n
+		}
+		if s.maxResp > 0 && int64(tot) > s.maxResp && rapid.IntRange(0, 2).Draw(t, "announcesLessThanItWrites") == 0 {
+			s.shortCL, s.explicitCL = 1+rapid.Int64Range(0, s.maxResp).Draw(t, "announcedLength"), false
+		}
+	}
 	return s
 }
 
 func (s *spec) String() string {
-	return fmt.Sprintf("%s reqBody=%d chunked=%v memReq=%d maxReq=%d | memResp=%d maxResp=%d status=%d writes=%v retry=%q failFirst=%d explicitCL=%v copyMode=%v abort=%v h2style=%v verbose=%v formCT=%v upgradeHdr=%v piecewise=%v nilErrHandler=%v expect100=%v hijackAfter=%v hijackRefused=%d", s.method, s.reqBody, s.chunked, s.memReq, s.maxReq, s.memResp, s.maxResp, s.status, s.writes, s.retry, s.failFirst, s.explicitCL, s.copyMode, s.abort, s.h2style, s.verbose, s.formCT, s.upgradeHdr, s.piecewise, s.nilErrHandler, s.expect100, s.hijackAfter, s.hijackRefused)
+	return fmt.Sprintf("%s reqBody=%d chunked=%v memReq=%d maxReq=%d | memResp=%d maxResp=%d status=%d writes=%v retry=%q failFirst=%d explicitCL=%v copyMode=%v abort=%v h2style=%v verbose=%v formCT=%v upgradeHdr=%v piecewise=%v nilErrHandler=%v expect100=%v hijackAfter=%v hijackRefused=%d shortCL=%d overDeclared=%d", s.method, s.reqBody, s.chunked, s.memReq, s.maxReq, s.memResp, s.maxResp, s.status, s.writes, s.retry, s.failFirst, s.explicitCL, s.copyMode, s.abort, s.h2style, s.verbose, s.formCT, s.upgradeHdr, s.piecewise, s.nilErrHandler, s.expect100, s.hijackAfter, s.hijackRefused, s.shortCL, s.overDeclared)
 }
 
 // formatLogger formats its arguments like a real logger.
@@ -261,6 +275,9 @@ func TestC15_LimitsAndTempFiles(t *testing.T) {
 			}
 			if s.explicitCL {
 				w.Header().Set("Content-Length", fmt.Sprint(total))
+			}
+			if s.shortCL > 0 { // a handler that announces less than it then writes
+				w.Header().Set("Content-Length", fmt.Sprint(s.shortCL-1))
 			}
 			w.Header().Set("X-Attempt", fmt.Sprint(invocations))
 			if s.hijackRefused == 1 { // a handler that prefers the raw connection and falls back to a plain response
@@ -382,6 +399,9 @@ func TestC15_LimitsAndTempFiles(t *testing.T) {
 			}
 		} else {
 			req.ContentLength = int64(s.reqBody)
+			if s.overDeclared > 0 { // an upload that announces more than the limit allows and is then cut short
+				req.ContentLength = s.overDeclared
+			}
 		}
 		rec := sim.NewRecorder()
 		rec.RefuseHijack = s.hijackRefused > 0
@@ -402,7 +422,7 @@ func TestC15_LimitsAndTempFiles(t *testing.T) {
 		if notSpilled != "" {
 			t.Fatalf("%s (%s)", notSpilled, s)
 		}
-		reqOver := s.maxReq > 0 && int64(s.reqBody) > s.maxReq
+		reqOver := s.maxReq > 0 && (int64(s.reqBody) > s.maxReq || s.overDeclared > 0)
 		respOver := s.maxResp > 0 && int64(total) > s.maxResp
 		// expected number of attempts when nothing is over a limit
 		wantAttempts := 1
